@@ -280,6 +280,29 @@ def find_extender(F, graph_route):
     return step, cands[0]
 
 
+def reaches_fn(F, body, target, _seen=None):
+    seen = _seen if _seen is not None else set()
+    st = [body["path"]]
+    while st:
+        p = st.pop()
+        if p in seen:
+            continue
+        seen.add(p)
+        b = F.fns.get(p)
+        if not b:
+            continue
+        for bb in b["blocks"]:
+            t = bb["t"]
+            if t.get("k") == "call" and "const" in t["f"] and "fn" in t["f"]["const"]:
+                fr = t["f"]["const"]["fn"]
+                for q in (fr.get("rpath"), fr.get("path")):
+                    if q == target:
+                        return True
+                    if q and q in F.fns and q not in seen:
+                        st.append(q)
+    return False
+
+
 def find_callers(F, callee_path, exclude=()):
     out = []
     for b in F.fns.values():
@@ -571,7 +594,7 @@ class DriverOracles(WalkOracles):
             return Opaque(dest_ty, {"fmt"})
         if name == "len" and ("BoomHashMap" in path or "DebruijnGraph" in path):
             return Int(64, False, val=self.N)
-        if "BitSet" in path or "bit_set" in path:
+        if "BitSet" in path or "bit_set" in path or "bit_set::BitSet" in fn.get("key", ""):
             if name in ("with_capacity", "new", "default"):
                 return SetV()
             r = args[0]
@@ -596,6 +619,15 @@ class DriverOracles(WalkOracles):
                     raise Undecided("contains of a symbolic id")
                 self.events.append(("contains", i))
                 return mkbool(i in sv.s)
+            if name == "extend" and len(args) == 2:
+                from .models import drain_iter
+                items = drain_iter(it, args[1])
+                if items is None or not all(isinstance(x, Int) and x.is_conc() for x in items):
+                    raise Undecided("bit set extended by %r" % (args[1],))
+                for x in items:
+                    self.events.append(("insert", x.val))
+                it.write(r.cell, r.path, SetV(sv.s | {x.val for x in items}))
+                return Tup([])
         if p == self.builder_path or path == self.builder_path:
             me = args[0]
             comp = it.read(me.cell, me.path)
@@ -892,7 +924,8 @@ def entry_points_table(F, rep, rule):
     except Unsupported as e:
         rep.violated(rule, "entry-points", str(e), witness={"kind": "anchor-missing"})
         return
-    entries = [b for b in find_callers(F, driver["path"], exclude=(driver["path"],)) if b["vis"] == "pub"]
+    # public functions of the crate that (transitively) reach the driver
+    entries = [b for b in F.fns.values() if b["vis"] == "pub" and b["kind"] == "Fn" and b["path"] != driver["path"] and reaches_fn(F, b, driver["path"])]
     rep.floor("public entry points of the k-mer route", 3, len(entries))
     for body in entries:
         nm = body["path"].split("::")[-1]
